@@ -17,6 +17,10 @@
      16 the first state a key is given after a restart is not the fold of exactly the records before the restored positions
      17 a restart did not resume from the latest completed checkpoint
      18 a published checkpoint does not hold exactly the positions its runners acknowledged (one per split)
+     (12 and 13 are not raised for an invocation on a worker whose storage failed earlier in the same generation: the
+      current code drops the failed batch and the worker stops; if such state were ever checkpointed, 16/10 catch it later)
+     20 timer effects: a state given holds a firing that is not a timer of the key or is recorded more than once, or the
+        final state does not hold every timer of the key's records exactly once (a timer's effect was lost or repeated)
      19 the summary entry of a key (rewritten on every application) is not the number of records in the state given:
         a stale version of a rewritten entry was read
    Codes 1..9: against the model / the observation itself:
@@ -29,7 +33,9 @@ Import ListNotations.
 Open Scope N_scope.
 
 Record inv := Inv { i_gen : N; i_key : N; i_rec : N; i_probe : bool; i_given : list (N * N * N); (* id, count, ord *)
-                    i_sum : N }.  (* the key's summary entry as given: rewritten on every application = number of applications *)
+                    i_sum : N;
+                    i_fired : list (N * N);
+                    i_doomed : bool }.  (* the worker's storage failed earlier in this generation: it is about to stop *)  (* timers of the key that have fired according to the state given: (time, firings) *)  (* the key's summary entry as given: rewritten on every application = number of applications *)
 
 Inductive tev :=
 | TPubStart (id : N) (pos : list N) (nstates : list N)   (* job is about to write checkpoint id: position / #states per split *)
@@ -43,7 +49,8 @@ Inductive case :=
        (invs : list inv)                                 (* in observation order *)
        (acked : list (N * list (N * N)))                 (* checkpoint id, (split, position) acknowledged by runners *)
        (completed : bool)
-       (survivor : bool).                                (* some operator was re-deployed in place in a later generation *)
+       (survivor : bool)
+       (timers : list (N * N)).                          (* (record id, event-time timer its application registers) *)                                (* some operator was re-deployed in place in a later generation *)
 
 (* ---------- helpers *)
 Definition memN (x : N) (l : list N) : bool := existsb (N.eqb x) l.
@@ -104,11 +111,11 @@ Definition check_inv (splits : list (list (N * N))) (i : inv) : list N :=
   flat_map (fun sp =>
       let l := subseq k sp in
       match prefix_len gi l with
-      | None => [12]
+      | None => if i_doomed i then [] else [12]
       | Some n =>
           (if i_probe i then (if n =? N.of_nat (length l) then [] else [10])
            else match index_of (i_rec i) l with
-                | Some j => if j =? n then [] else [12]
+                | Some j => if (j =? n) || i_doomed i then [] else [12]
                 | None => []
                 end) ++
           (* applied order kept per split *)
@@ -141,7 +148,7 @@ Fixpoint check_flow (splits : list (list (N * N))) (tl : list tev) (m : list (N 
       let gi := sort (ids_of (i_given i)) in
       let here :=
         match lookup2 m (i_gen i) (i_key i) with
-        | Some expect => if list_eqb gi expect then [] else [13]
+        | Some expect => if list_eqb gi expect || i_doomed i then [] else [13]
         | None =>
             match restore_of tl (i_gen i) with
             | Some pos => if list_eqb gi (sort (before_positions splits pos (i_key i))) then [] else [16]
@@ -189,7 +196,7 @@ Fixpoint check_timeline (started : list (N * list N)) (done : option N) (dep : l
 
 (* ---------- final state: every key has a probe in the last generation; against the model's failure-free run (1) *)
 Definition keys_of (splits : list (list (N * N))) : list N :=
-  dedup_codes (map snd (concat splits)).
+  filter (fun k => negb (k =? 99)) (dedup_codes (map snd (concat splits))).
 Definition last_gen (is : list inv) : N := fold_left (fun a i => N.max a (i_gen i)) is 0.
 Definition final_state (is : list inv) (k : N) : option (list N) :=
   let lg := last_gen is in
@@ -211,14 +218,28 @@ Definition check_final (splits : list (list (N * N))) (is : list inv) : list N :
    the first and Operator.HandleDeploy opens a second DKV over the first; records are then applied out of split order,
    lost or applied against a stale cut. In exactly that input class (survivor = true) the exactly-once codes are
    reported as the single code 101; everywhere else, and for codes 17/18 in every class, nothing is masked. *)
-Definition eo_codes : list N := [1; 9; 10; 11; 12; 13; 14; 15; 16; 19].
+Definition eo_codes : list N := [1; 9; 10; 11; 12; 13; 14; 15; 16; 19; 20].
+
+(* ---------- timer effects (20). Marker records (key marker_key) only carry event time. *)
+Definition marker_key : N := 99.
+Definition timers_of_key (splits : list (list (N * N))) (timers : list (N * N)) (k : N) : list N :=
+  flat_map (fun id => match find (fun t => fst t =? id) timers with Some t => [snd t] | None => [] end) (all_of_key splits k).
+Definition expected_timers (splits : list (list (N * N))) (timers : list (N * N)) : list (N * list N) :=
+  map (fun k => (k, timers_of_key splits timers k)) (dedup_codes (map snd (concat splits))).
+Definition check_fired (exp : list (N * list N)) (i : inv) : list N :=
+  let expect := match find (fun e => fst e =? i_key i) exp with Some e => snd e | None => [] end in
+  (if forallb (fun f => (snd f =? 1) && memN (fst f) expect) (i_fired i) then [] else [20]) ++
+  (if i_probe i then
+     (if list_eqb (dedup_codes (sort (map fst (i_fired i)))) (dedup_codes (sort expect)) then [] else [20])
+   else []).
 
 Definition check_case (c : case) : list N :=
   match c with
-  | Case splits tl is acked completed survivor =>
+  | Case splits tl is acked completed survivor timers =>
       let codes := dedup_codes (
         (if completed then [] else [9]) ++
         flat_map (check_inv splits) is ++
+        (let exp := expected_timers splits timers in flat_map (check_fired exp) is) ++
         check_flow splits tl [] is ++
         check_timeline [] None [] tl acked ++
         check_final splits is) in
